@@ -240,7 +240,7 @@ def paillier_cases(rng, tier):
 def bdpe_cases(rng, tier):
     quick = tier == "quick"
     cases = []
-    for t, bits, ks in [(11, 256, "c0640"), (3, 256, "c0641"), (251, 512, "c0642")] + ([] if quick else [(65521, 512, "c0643"), (2, 256, "c0644")]):
+    for t, bits, ks in [(11, 256, "c0640"), (3, 256, "c0641"), (251, 512, "c0642")] + ([] if quick else [(65521, 512, "c0643"), (5, 384, "c0644")]):
         ops = sorted(set([0, 1, t - 1, t - 2 if t > 2 else 0, t // 2, rng.randrange(t), rng.randrange(t)]))
         pairs = list(itertools.product(ops, ops))
         if t == 11:
